@@ -12,7 +12,21 @@ import (
 const (
 	findingHeaders   = "ipfilter-trusts-forwarded-headers"
 	findingMalformed = "malformed-list-unfiltered"
+	findingMapped    = "v4-mapped-entry-misparsed"
 )
+
+// excludeMapped applies the exclusion of the open finding "v4-mapped-entry-misparsed": when the case
+// lies in its region (see Policy.MappedEntryDecides) it is counted as excluded and the IPv4-mapped
+// entries are respelled as plain IPv4 addresses (the same policy for the reference), so that an
+// ordinary case is executed instead.
+func excludeMapped(sub *lab.SubCheck, c *ipCase) bool {
+	if !lab.Open(findingMapped) || !c.Policy.MappedEntryDecides(c.Req.Remote) {
+		return false
+	}
+	sub.Excluded(findingMapped)
+	c.Policy = c.Policy.Respelled()
+	return true
+}
 
 // ipCase is one request against one configured policy (and optionally a token).
 type ipCase struct {
@@ -146,6 +160,8 @@ func TestC10IPPolicy(t *testing.T) {
 			c.Req.XFF, c.Req.XRI = "", ""
 			differs, stripped = false, true
 		}
+		respelled := excludeMapped(sub, &c)
+		pol = c.Policy
 		s := newSUT(c.Token, pol)
 		defer s.close()
 		viol, verdict, self := ipOracle(s, c)
@@ -163,6 +179,15 @@ func TestC10IPPolicy(t *testing.T) {
 		}
 		if stripped {
 			labels = append(labels, "open-finding:forged-headers-stripped")
+		}
+		if respelled {
+			labels = append(labels, "open-finding:mapped-entries-respelled")
+		}
+		if pol.HasMapped() {
+			labels = append(labels, "entry-ipv4-mapped-single-address")
+			if pol.MappedEntryDecides(c.Req.Remote) {
+				labels = append(labels, "mapped-entry-decides-or-ipv6-peer")
+			}
 		}
 		if len(pol.Allow) > 0 && len(pol.Deny) > 0 {
 			labels = append(labels, "allow-and-deny")
@@ -221,6 +246,9 @@ func TestC10MalformedList(t *testing.T) {
 			sub.Excluded(findingMalformed)
 			pol = Policy{Allow: onlyWellFormed(pol.Allow), Deny: onlyWellFormed(pol.Deny)}
 			c.Policy, stripped = pol, true
+		}
+		if excludeMapped(sub, &c) {
+			pol = c.Policy
 		}
 		s := newSUT(c.Token, pol)
 		defer s.close()
